@@ -332,6 +332,27 @@ dspec.contracts[CLS + '.estimate_required_impact'].ensures.extend(
                                                                ('C05',)))
 
 
+def _ri_closed_form(s):
+  """The design's required impact is the closed form AT ITS OWN correlation
+  (not at a clipped or substituted one)."""
+  o = s.self
+  y = unwrap(o._y).val.t
+  corr = unwrap(F('corr', o))
+  r = unwrap(s.result)
+  # stated where the value is computed; a cached value is the fresh value by
+  # the class invariant (C08), and the fresh value is computed by this code
+  cached = z3.Not(unwrap(s.old.self._required_impact).none)
+  return z3.Or(cached, r.none, corr.none,
+               N(r.val) == required_impact_formula(y, o._par, N(corr.val)))
+
+
+dspec.contracts[CLS + '.required_impact'].ensures.extend(
+    __import__('mmverif.engine.specs', fromlist=['clauses']).clauses([
+        ('C05 the required impact of a design is the closed form evaluated at '
+         'the correlation of its own two series', _ri_closed_form, ('C05',))],
+                                                               ('C05',)))
+
+
 def _tbrfit_closed_form(s):
   o = s.self
   x, y = unwrap(o._x).val.t, unwrap(o._y).val.t
